@@ -21,7 +21,8 @@ RULE = ('seeded histories of 10-30 calls (construct a Licensing from a valid or 
 ASSUMPTIONS = ['class attributes rewritten by BooleanAlgebra.__init__ are not read by any modelled function; interleaved '
                'constructions are part of the generated histories']
 
-TEXTS = ['mit', 'mit or gpl 2.0', 'MIT and (gnu gpl v2 with classpath)', 'foo bar', 'mit mit', '()', 'a and (or b)',
+TEXTS = ['gpl 2.0 or mit', 'mit or gpl 2.0', 'mit and gpl 2.0 and mit', 'mit and gpl 2.0', '(mit or foo) and bar', 'bar and (foo or mit)',
+         'gplv2 and x mit', 'gnu gpl v2 or mit', 'mit', 'mit or gpl 2.0', 'MIT and (gnu gpl v2 with classpath)', 'foo bar', 'mit mit', '()', 'a and (or b)',
          'classpath', 'mit with classpath', 'x with mit', 'gpl 2.0 or later or foo', '', '  ', 'mit or', 'a,b']
 
 
@@ -35,8 +36,11 @@ def gen_history(rng):
               # the same names with other exception flags: instances must not influence one another
               [('mit', [], True), ('GPL 2.0', ['GNU GPL v2'], False), ('classpath', [], False)],
               [('mit', [], False), ('GPL 2.0', ['GNU GPL v2'], True), ('classpath', [], True)],
+              # the same keys and flags with other aliases
+              [('mit', ['x mit'], False), ('GPL 2.0', ['gplv2'], False), ('classpath', [], True)],
+              [('mit', [], False), ('GPL 2.0', [], False), ('classpath', ['GNU GPL v2'], True)],
               [('gpl 2.0', [], False), ('gpl', ['gpl 2.0'], False)]]
-    ops.append(('new', rng.choice(tables[:1] + tables[5:7])))
+    ops.append(('new', rng.choice(tables[:1] + tables[5:9])))
     ninst = 1
     for _ in range(n):
         r = rng.random()
@@ -47,7 +51,7 @@ def gen_history(rng):
             ops.append(('parse', rng.randrange(ninst), rng.random() < 0.3, rng.random() < 0.3, rng.random() < 0.3, rng.choice(TEXTS)))
             nexpr_upper += 1
         else:
-            k = rng.choice(['parse_expr', 'keys', 'unknown', 'simplify', 'dedup', 'equiv', 'contains', 'render'])
+            k = rng.choice(['parse_expr', 'keys', 'keys', 'unknown', 'unknown', 'simplify', 'dedup', 'equiv', 'contains', 'render'])
             h = rng.randrange(nexpr_upper)
             if k in ('equiv', 'contains'):
                 ops.append((k, rng.randrange(ninst), h, rng.randrange(nexpr_upper)))
